@@ -496,6 +496,20 @@ protected:
             m_freeEntries.push_back(Entry(allocate(1)));
         }
 
+        // Make room in the bucket now, so that nothing can fail once
+        // the entry has been moved to the list of entries: a failure
+        // after that point would leave an entry which find() cannot
+        // see and size() does not count, but which iteration visits.
+        BucketType&     theBucket = m_buckets[index];
+
+        if (theBucket.size() == theBucket.capacity())
+        {
+            theBucket.reserve(
+                theBucket.size() == 0 ?
+                    1 :
+                    theBucket.size() * 2);
+        }
+
         // insert a new entry as the first position in the bucket
         Entry&  newEntry = m_freeEntries.back();
         newEntry.erased = false;
@@ -521,7 +535,7 @@ protected:
 
         m_entries.splice(m_entries.end(), m_freeEntries, --m_freeEntries.end());
 
-        m_buckets[index].push_back(--m_entries.end());
+        theBucket.push_back(--m_entries.end());
 
         ++m_size;
 
